@@ -17,21 +17,37 @@ META = {
     "included), is empty when the images do not overlap; the same for box_overlap, for the sampled-corner path of "
     "any invertible affine (rotation/shear, padding, align, clip) and, under an explicit envelope hypothesis, for an "
     "abstract non-linear transform; read-shrink is a positive integer within the tolerance of the scale; the full "
-    "compute_reproject_roi plan (paste / overview / padded path) inherits these.  The model is tied to /repo on "
-    "every run by an exact differential correspondence (exhaustive per-axis on small sizes, generated GeoBox pairs "
-    "through compute_reproject_roi) and an independent numpy/pyproj oracle that maps every destination pixel centre.",
+    "compute_reproject_roi plan (paste / overview / padded path) inherits these.  The glue around that core is modelled "
+    "and proved as well (Model/C03Top): compute_reproject_roi FROM ITS ARGUMENTS (classes of the two sides, CRS equality, "
+    "the two pixel->world affines, geographic flags, the CRS transformers as parameters) with native_pix_transform's "
+    "dispatch, GbxPointTransform.__call__ (pix2wld, lon/lat clamp, transformer, wld2pix, non-finite answers, lazy "
+    "TransformNotInvertibleError), decompose_rws in full (A = R W S, R a proper rotation, W unit shear, S diagonal with the "
+    "mirroring in the sign of S.e, LinAlgError exactly for singular matrices) and get_scale_from_linear_transform on top "
+    "of it; end-to-end theorems state coverage / within / read-shrink / paste-only-for-same-CRS-GeoBoxes directly in terms "
+    "of the two GeoBoxes with no hypothesis on intermediate values, and the overview path is tied to C02's model of "
+    "GeoBox.zoom_out.  The model is tied to /repo on every run by an exact differential correspondence (exhaustive "
+    "per-axis on small sizes, generated GeoBox pairs through compute_reproject_roi in both calling conventions, "
+    "decompose_rws, native_pix_transform, GbxPointTransform and cross-CRS plans with an exact stand-in for the pyproj "
+    "transformer: affine, axis swapping, quadratic, partially non-finite, clamps active) and independent "
+    "numpy/pyproj/exact-rational oracles that map every destination pixel centre and judge separated rasters.",
     "note": "Trusted: Lean kernel + {propext, Classical.choice, Quot.sound}; IEEE rounding not modelled (exact stream "
     "restricted to dyadic inputs, doubles sampled by the oracle); cross-CRS coverage holds only under the envelope "
     "hypothesis (pyproj curvature) and is sampled; paste path coverage is proved for true transforms within half a "
-    "pixel of the snapped one (scale residue * extent + shift residue < 1/2).",
+    "pixel of the snapped one (scale residue * extent + shift residue < 1/2).  Observation (not a finding): the lon/lat "
+    "clamp of a geographic SOURCE that really extends beyond +-180 (not just by rounding) collapses those columns onto "
+    "lon=180 in tr but not in tr.back, so roi_dst then ends at the antimeridian; the coverage oracle does not judge "
+    "such sources.  Private helpers (_pick_read_scale ...) are looked up defensively: a renamed / re-parameterised one "
+    "is skipped (counted in the evidence), never failed; the transformer seam (public CRS.transformer_to_crs) is "
+    "probed before it is used.",
     "technique": "Lean 4 proof over hand model + exhaustive/random differential correspondence with real code",
-    "unmodelled": "overlap.py: GbxPointTransform (pyproj transformer, lon/lat clamp of geographic sources: abstract point "
-    "transform in the model, sampled by the pyproj oracle), CRS equality inside native_pix_transform (C01/C19), "
-    "compute_output_geobox (C11); math.py: decompose_rws beyond the two scales it feeds (rotation / shear factors, the "
-    "det<0 flip), numpy lstsq itself (its closed form on the 5-point stencil is modelled and proved to satisfy the normal "
-    "equations), norm_xy, quasi_random_r2; roi.py: polygon_path with closed=True, the N-d / int / open-slice variants of "
-    "the ROI helpers (C17); geobox.py: zoom_out beyond the shape it returns (C02); float32 rounding of roi_boundary and "
-    "numpy>=2 float32 arithmetic of LinearPointTransform (exact in the model; excluded from the exact stream).",
+    "unmodelled": "overlap.py: the pyproj transformer itself (a parameter of the model; sampled by the pyproj oracle), CRS "
+    "equality and crs.geographic (inputs of the model: C01/C19), GCPGeoBox.pix2wld/wld2pix (polynomial; only the dispatch "
+    "on the class is modelled), get_scale_at_point when a stencil point maps to a non-finite location, "
+    "compute_output_geobox (C11); math.py: numpy lstsq itself (its closed form on the 5-point stencil is modelled and "
+    "proved to satisfy the normal equations), norm_xy, quasi_random_r2; roi.py: polygon_path with closed=True, the "
+    "N-d / int / open-slice variants of the ROI helpers (C17); geobox.py: zoom_out beyond shape and affine (C02); "
+    "float32 rounding of roi_boundary and numpy>=2 float32 arithmetic of LinearPointTransform (exact in the model; "
+    "excluded from the exact stream).",
     "design_ref": "DESIGN.md §4 C03",
 }
 META["note"] += "  NOT MODELLED: " + META["unmodelled"]
@@ -285,6 +301,69 @@ def oracle_linear(R: Run, case, src_shape, dst_shape, A6, r, pad, align, eps, ta
                  sig=f"plan|{tag}|paste-shape")
         R.oracle(align in (None, 0) and pad in (None, 0), "paste-ok-with-padding-or-align", case,
                  f"paste_ok reported although padding={pad} align={align} were requested", sig=f"plan|{tag}|paste-tight")
+
+
+# ------------------------------------------------------------------ private helpers are looked up defensively
+class Missing(Exception):
+    """a private helper of odc-geo is gone, renamed or takes other arguments: the direct stream on it is skipped"""
+
+
+def private(mod, name):
+    fn = getattr(mod, name, None)
+    if not callable(fn):
+        raise Missing(name)
+    return fn
+
+
+def call_private(mod, name, *a, **kw):
+    fn = private(mod, name)
+    try:
+        return fn(*a, **kw)
+    except TypeError as ex:
+        if "argument" in str(ex) or "positional" in str(ex):
+            raise Missing(name) from ex
+        raise
+
+
+def corr_private(R, line, fn, sig):
+    """a correspondence case that calls a PRIVATE helper directly: skipped and counted (never a mismatch) when the helper
+    is missing / renamed / has another parameter list - such code is reached through the public entry points anyway"""
+    from .common import err_s
+
+    try:
+        out = fn()
+    except Missing as ex:
+        R.count(f"private-helper-skipped|{ex}")
+        note = f"direct stream on private helper {ex} skipped: not found with the expected parameters"
+        if note not in R.notes:
+            R.notes.append(note)
+        return None
+    except Exception as e:  # pylint: disable=broad-except
+        out = err_s(e)
+    R.corr(line, lambda: out, sig=sig)
+    return out
+
+
+# ------------------------------------------------------------------ calling conventions
+PLAN_ORDER = ["ttol", "stol", "padding", "align"]          # documented order after (src, dst)
+PLAN_DEFAULTS = {"ttol": 0.05, "stol": 1e-3, "padding": None, "align": None}
+
+
+def call_plan(O, positional, src, dst, **kw):
+    """compute_reproject_roi through one of its calling conventions: keyword arguments, or positional arguments in the
+    documented order (src, dst, ttol, stol, padding, align) up to the last one given"""
+    given = [PLAN_ORDER.index(k) for k in kw if k in PLAN_ORDER]
+    if positional and given and all(k in PLAN_ORDER for k in kw):
+        args = [kw.get(k, PLAN_DEFAULTS[k]) for k in PLAN_ORDER[: max(given) + 1]]
+        return O.compute_reproject_roi(src, dst, *args)
+    return O.compute_reproject_roi(src, dst, **kw)
+
+
+def num_variant(rng, v, floats=True):
+    """the same option value in another numeric type: python int, numpy integer, (for padding) float"""
+    if v is None:
+        return None
+    return rng.choice([v, v, np.int64(v), np.int32(v)] + ([float(v)] if floats else []))
 
 
 # ------------------------------------------------------------------ generators
@@ -559,7 +638,7 @@ def run(R: Run):
             R.oracle(ok, "axis-drops-pixel", {"fn": "compute_axis_overlap", "Ns": Ns, "Nd": Nd, "s": str(s), "t": str(t)},
                      f"huge sizes: src={src_} dst={dst_}", sig="axis-huge")
     for sc in (2.0**31 + 0.5, 2.0**31 - 2.0**-12, 2.0**40 + 0.25, 2.0**52 + 1, 2.0**53, 2.0**63, 2.0**64, 2.0**100):
-        R.corr(f"c03 pick {frac_s(sc)} {frac_s(1e-3)}", lambda: str(int(O._pick_read_scale(sc))), sig="pick|huge")
+        corr_private(R, f"c03 pick {frac_s(sc)} {frac_s(1e-3)}", lambda: str(int(call_private(O, "_pick_read_scale", sc))), sig="pick|huge")
 
     # ================================================================ _pick_read_scale, scale, roi_boundary
     for m in range(1, 9):
@@ -569,11 +648,11 @@ def run(R: Run):
                 res = []
 
                 def fp():
-                    o = O._pick_read_scale(sc, tol)
+                    o = call_private(O, "_pick_read_scale", sc, tol)
                     res.append(o)
                     return str(int(o))
 
-                R.corr(f"c03 pick {frac_s(sc)} {frac_s(tol)}", fp, sig="pick|" + ("lt1" if sc < 1 else "ge1"))
+                corr_private(R, f"c03 pick {frac_s(sc)} {frac_s(tol)}", fp, sig="pick|" + ("lt1" if sc < 1 else "ge1"))
                 if res:
                     rs = res[0]
                     R.oracle(rs >= 1 and rs <= max(1, sc + tol) and rs > sc - 1, "pick-read-scale-contract",
@@ -581,9 +660,9 @@ def run(R: Run):
     for m in range(1, 6):  # default tolerance of _pick_read_scale (1e-3)
         for off in (2**-7, 2**-8, 2**-9, 2**-10, 2**-11, 0):
             sc = m - off
-            R.corr(f"c03 pick {frac_s(sc)} {frac_s(1e-3)}", lambda: str(int(O._pick_read_scale(sc))), sig="pick|default-tol")
+            corr_private(R, f"c03 pick {frac_s(sc)} {frac_s(1e-3)}", lambda: str(int(call_private(O, "_pick_read_scale", sc))), sig="pick|default-tol")
     for sc in (0.0, -1.0, 2**-20, 0.999):
-        R.corr(f"c03 pick {frac_s(sc)} {frac_s(1e-3)}", lambda: str(int(O._pick_read_scale(sc))), sig="pick|edge")
+        corr_private(R, f"c03 pick {frac_s(sc)} {frac_s(1e-3)}", lambda: str(int(call_private(O, "_pick_read_scale", sc))), sig="pick|edge")
     for _ in range(R.pick(300, 3000)):
         k = rng.choice(["st", "st", "rot90", "shear", "rot45"])
         a, e = (rng.choice([1, 2, 0.5, 3, 5, 0.75, 10]) * rng.choice([1, -1]) for _ in range(2))
@@ -720,9 +799,10 @@ def run(R: Run):
             continue
         rational_root = is_sq(A6[0] ** 2 + A6[3] ** 2)
         res = []
+        conv = rng.random() < 0.3  # positional arguments in the documented order
 
         def fplan():
-            r = O.compute_reproject_roi(src, dst, ttol=ttol, stol=stol, padding=pad, align=al)
+            r = call_plan(O, conv, src, dst, ttol=ttol, stol=stol, padding=pad, align=al)
             res.append(r)
             if not rational_root:
                 return f"{roi_s(r.roi_src)} {roi_s(r.roi_dst)}"
@@ -750,7 +830,7 @@ def run(R: Run):
             f"|rs{min(int(res[0].read_shrink), 3)}" if res else "") + ("|" + placement(res[0], sshape, dshape) if res else "")
         R.corr(line, lambda: out, sig="plan|" + tag + ("|align" if al else "") + ("|pad" if pad else ""))
         case = {"fn": "compute_reproject_roi", "src_shape": sshape, "dst_shape": dshape, "src_affine": list(S)[:6],
-                "dst_affine": list(D)[:6], "ttol": ttol, "stol": stol, "padding": pad, "align": al, "crs": CRS0}
+                "dst_affine": list(D)[:6], "ttol": ttol, "stol": stol, "padding": pad, "align": al, "crs": CRS0, "positional": conv}
         if not res:
             R.oracle(False, "plan-raises", case, f"compute_reproject_roi raised {out}", sig="plan|raises")
             continue
@@ -909,9 +989,10 @@ def run(R: Run):
             D = S * Affine.translation(tx, ty) * L
         src, dst = gb(sshape, S), gb(dshape, D)
         case = {"fn": "compute_reproject_roi", "src_shape": sshape, "dst_shape": dshape, "src_affine": list(S)[:6],
-                "dst_affine": list(D)[:6], "padding": pad, "align": al, "ttol": ttol_f, "stol": stol_f, "crs": CRS0}
+                "dst_affine": list(D)[:6], "padding": pad, "align": al, "ttol": ttol_f, "stol": stol_f, "crs": CRS0,
+                "positional": rng.random() < 0.3}
         try:
-            r = O.compute_reproject_roi(src, dst, padding=pad, align=al, ttol=ttol_f, stol=stol_f)
+            r = call_plan(O, case["positional"], src, dst, padding=pad, align=al, ttol=ttol_f, stol=stol_f)
         except Exception as e:  # pylint: disable=broad-except
             R.oracle(False, "plan-raises", case, f"compute_reproject_roi raised {type(e).__name__}: {e}", sig="plan|raises")
             continue
@@ -1025,9 +1106,10 @@ def run(R: Run):
             tctag = "|" + tctag
         src, dst = gb(sshape, S), gb(dshape, D)
         case = {"fn": "compute_reproject_roi", "src_shape": sshape, "dst_shape": dshape, "src_affine": list(S)[:6],
-                "dst_affine": list(D)[:6], "stol": stol, "ttol": ttol, "padding": pad_t, "align": al_t, "crs": CRS0}
+                "dst_affine": list(D)[:6], "stol": stol, "ttol": ttol, "padding": pad_t, "align": al_t, "crs": CRS0,
+                "positional": rng.random() < 0.3}
         try:
-            r = O.compute_reproject_roi(src, dst, stol=stol, ttol=ttol, padding=pad_t, align=al_t)
+            r = call_plan(O, case["positional"], src, dst, stol=stol, ttol=ttol, padding=pad_t, align=al_t)
         except Exception as e:  # pylint: disable=broad-except
             R.oracle(False, "plan-raises", case, f"compute_reproject_roi raised {type(e).__name__}: {e}", sig="plan|raises")
             continue
@@ -1044,6 +1126,12 @@ def run(R: Run):
                      abs(abs(A6[4]) / rs - 1) < Fraction(stol) * (1 + Fraction(1, 10**6)),
                      "paste-ok-scale-outside-stol", case,
                      f"paste_ok with read_shrink={rs} for scales {float(A6[0])}, {float(A6[4])} and stol={stol}", sig="plan|paste-stol")
+
+    # ================================================================ glue around the core: decompose_rws, GbxPointTransform,
+    #     native_pix_transform, compute_reproject_roi across CRSs with an exact stand-in for the transformer (Model/C03Top)
+    from . import c03_top
+
+    c03_top.run_top(R)
 
     # ================================================================ cross-CRS (oracle only; pyproj is the reference)
     cross_crs(R, O, gb)
@@ -1346,6 +1434,9 @@ def cross_crs(R: Run, O, gb):
         rows = r0 + sub_index(r1 - r0, max(1, (r1 - r0) // 150))
         one_case(a, b, sbox, dbox, rng.choice([None, None, 1]), None, f"worldgrid-z{z}", rows=rows, cols=cols)
 
+    # ---------------- disjoint rasters a fraction of a pixel beyond the padding margin, explicit / falsy paddings
+    xcrs_near_touching(R, O, gb, R.pick(60, 600))
+
     # ---------------- small / wide rasters inside the areas of use
     n = R.pick(200, 2000)
     done = 0
@@ -1455,6 +1546,82 @@ def cross_crs(R: Run, O, gb):
         one_case(a, b, sbox, dbox, rng.choice([None, None, 1, 0]), None, tag, step=st_)
 
 
+FALSY_PADS = [0, 0, 0.0, "np.int64(0)", "np.int32(0)", None, 1, 2, "np.int64(1)"]
+
+
+def xcrs_near_touching(R: Run, O, gb, n):
+    """Rasters in DIFFERENT CRSs that do not overlap and are a fraction of a source pixel (or a little more than the
+    requested padding) apart, on each of the four sides; padding given as 0 / 0.0 / numpy zero / None / 1 / 2.  The
+    separation is measured independently (pyproj, dense grid of destination locations): when it exceeds the padding margin
+    both regions must have zero area."""
+    from pyproj import CRS as PCRS
+    from pyproj import Transformer
+
+    rng = R.rng
+    pairs = [("EPSG:3857", "EPSG:4326", 1000.0, 0.005), ("EPSG:32633", "EPSG:3857", 100.0, 150.0), ("EPSG:3577", "EPSG:4326", 250.0, 0.002),
+             ("EPSG:4326", "EPSG:3857", 0.01, 1200.0), ("EPSG:32755", "EPSG:3577", 30.0, 40.0), ("EPSG:3857", "EPSG:32633", 200.0, 100.0)]
+    origin = {"EPSG:3857": (1.0e6, 5.0e6), "EPSG:32633": (4.2e5, 5.6e6), "EPSG:3577": (1.0e6, -3.0e6), "EPSG:4326": (14.0, 48.0),
+              "EPSG:32755": (5.1e5, 6.1e6)}
+    for _ in range(n):
+        a, b, res_s, res_d = rng.choice(pairs)
+        N = rng.randint(20, 120)
+        X0, Y0 = origin[a]
+        if a == "EPSG:32755" or b == "EPSG:3577" and a != "EPSG:32755":
+            pass
+        S = Affine(res_s, 0, X0, 0, -res_s, Y0)
+        side = rng.choice(["right", "left", "below", "above"])
+        pad_s = rng.choice(FALSY_PADS)
+        pad = eval(pad_s, {"np": np}) if isinstance(pad_s, str) else pad_s  # pylint: disable=eval-used
+        margin = 1 if pad is None else int(pad)
+        gap = margin + rng.choice([0.25, 0.5, 0.5, 0.75, 0.9, 1.5])  # source pixels beyond the padding margin
+        al = rng.choice([None, None, None, 4, 16])
+        t_ab = Transformer.from_crs(PCRS.from_user_input(a), PCRS.from_user_input(b), always_xy=True)
+        t_ba = Transformer.from_crs(PCRS.from_user_input(b), PCRS.from_user_input(a), always_xy=True)
+        dny, dnx = rng.randint(8, 40), rng.randint(8, 40)
+        # anchor corner of the destination: `gap` source pixels outside the source edge, somewhere along that edge
+        along = rng.uniform(0.1, 0.9) * N
+        if side == "right":
+            ax, ay = t_ab.transform(X0 + (N + gap) * res_s, Y0 - along * res_s)
+            D = Affine(res_d, 0, ax, 0, -res_d, ay)  # destination extends to the right of its left edge
+        elif side == "left":
+            ax, ay = t_ab.transform(X0 - gap * res_s, Y0 - along * res_s)
+            D = Affine(res_d, 0, ax - dnx * res_d, 0, -res_d, ay)
+        elif side == "below":
+            ax, ay = t_ab.transform(X0 + along * res_s, Y0 - (N + gap) * res_s)
+            D = Affine(res_d, 0, ax, 0, -res_d, ay)
+        else:
+            ax, ay = t_ab.transform(X0 + along * res_s, Y0 + gap * res_s)
+            D = Affine(res_d, 0, ax, 0, -res_d, ay + dny * res_d)
+        if not all(map(math.isfinite, list(D)[:6])):
+            continue
+        src, dst = gb((N, N), S, a), gb((dny, dnx), D, b)
+        # independent measurement of the separation: corners, edge points and centres of every destination pixel
+        yy, xx = np.meshgrid(np.arange(0, dny + 0.25, 0.5), np.arange(0, dnx + 0.25, 0.5), indexing="ij")
+        wx, wy = apply_np(faff(D), xx.ravel(), yy.ravel())
+        mx, my = t_ba.transform(wx, wy)
+        px, py = apply_np(finv(faff(S)), np.asarray(mx), np.asarray(my))
+        if not (np.isfinite(px).all() and np.isfinite(py).all()):
+            continue
+        sep = max(px.min() - N, -px.max(), py.min() - N, -py.max())  # > 0: every location is outside the source on one side
+        case = {"fn": "compute_reproject_roi", "src_crs": a, "dst_crs": b, "src_shape": (N, N), "dst_shape": (dny, dnx),
+                "src_affine": list(S)[:6], "dst_affine": list(D)[:6], "padding": pad_s if isinstance(pad_s, str) else pad, "align": al}
+        try:
+            r = O.compute_reproject_roi(src, dst, padding=pad, align=al)
+        except Exception as e:  # pylint: disable=broad-except
+            R.oracle(False, "xcrs-raises", case, f"compute_reproject_roi raised {type(e).__name__}: {e}", sig="xcrs|raises")
+            continue
+        if sep > margin + 0.05:
+            (ys, xs), (yd, xd) = r.roi_src, r.roi_dst
+            a_src = max(0, ys.stop - ys.start) * max(0, xs.stop - xs.start)
+            a_dst = max(0, yd.stop - yd.start) * max(0, xd.stop - xd.start)
+            R.oracle(a_src == 0 and a_dst == 0, "xcrs-separated-not-empty", case,
+                     f"every destination location is at least {sep:.3f} source pixels outside the source ({side}), padding "
+                     f"{pad!r} was requested, but roi_src={r.roi_src} (area {a_src}) roi_dst={r.roi_dst} (area {a_dst})",
+                     sig=f"xcrs|near-touching|{side}|pad{pad_s}" + ("|align" if al else ""))
+        else:
+            R.count("xcrs|near-touching|not-separated-enough")
+
+
 def rebuild(case):
     from odc.geo.crs import CRS
 
@@ -1466,6 +1633,8 @@ def rebuild(case):
     src = GeoBox(wh_(ss[1], ss[0]), sa, ca)
     dst = GeoBox(wh_(ds[1], ds[0]), da, cb)
     kw = {k: case[k] for k in ("ttol", "stol", "padding", "align") if k in case}
+    if isinstance(kw.get("padding"), str):
+        kw["padding"] = eval(kw["padding"], {"np": np})  # pylint: disable=eval-used
     return O, src, dst, kw
 
 
@@ -1489,6 +1658,25 @@ def searcher(R: Run, mismatches):
                     oracle_axis(R2, Ns + dN, Nd, s, t + dt, *o)
                     if R2.oracle_failures:
                         return R2.oracle_failures[0]
+    # planning lines (any branch): disjoint rasters just beyond the padding margin, same and different CRSs, falsy paddings
+    if any(m["line"].split(" ")[1] in ("plan", "relrois", "nlplan", "top", "nlsamples") for m in mismatches[:400]):
+        R2 = Run.__new__(Run)
+        R2.__dict__.update(R.__dict__)
+        R2.oracle_failures = []
+        R2.dist = {}
+
+        def gb(shape, A, crs=CRS0):
+            return GeoBox(wh_(shape[1], shape[0]), A, crs)
+
+        xcrs_near_touching(R2, O, gb, 250)
+        if R2.oracle_failures:
+            return R2.oracle_failures[0]
+        from . import c03_top
+
+        R2.lines, R2.real, R2.sigs = [], [], []
+        c03_top.run_top(R2, only_plans=True)
+        if R2.oracle_failures:
+            return R2.oracle_failures[0]
     return None
 
 
@@ -1504,6 +1692,38 @@ def replay(R: Run, rec) -> int:
         oracle_axis(R, Ns, Nd, s, t, *o)
         if case.get("tight") and Ns <= 10**5 and Nd <= 10**5:
             oracle_axis_tight(R, Ns, Nd, s, t, *o)
+    elif case.get("fn") == "compute_reproject_roi/fake-transformer":
+        from . import c03_top
+
+        c03_top.replay_top(R, case)
+    elif case.get("fn") == "native_pix_transform":
+        from . import c03_top
+
+        c03_top.replay_npt(R, case)
+    elif case.get("fn") == "decompose_rws":
+        from odc.geo.math import decompose_rws
+
+        print("decompose_rws ->", decompose_rws(Affine(*case["A"])))
+        return 1
+    elif case.get("fn") == "compute_reproject_roi" and key == "xcrs-separated-not-empty":
+        from pyproj import CRS as PCRS
+        from pyproj import Transformer
+
+        O, src, dst, kw = rebuild(case)
+        r = O.compute_reproject_roi(src, dst, **kw)
+        dny, dnx = case["dst_shape"]
+        N = case["src_shape"][0]
+        yy, xx = np.meshgrid(np.arange(0, dny + 0.25, 0.5), np.arange(0, dnx + 0.25, 0.5), indexing="ij")
+        wx, wy = apply_np(faff(dst.transform), xx.ravel(), yy.ravel())
+        mx, my = Transformer.from_crs(PCRS.from_user_input(case["dst_crs"]), PCRS.from_user_input(case["src_crs"]),
+                                      always_xy=True).transform(wx, wy)
+        px, py = apply_np(finv(faff(src.transform)), np.asarray(mx), np.asarray(my))
+        sep = max(px.min() - N, -px.max(), py.min() - N, -py.max())
+        margin = 1 if kw.get("padding") is None else int(kw["padding"])
+        (ys, xs), (yd, xd) = r.roi_src, r.roi_dst
+        area = max(0, ys.stop - ys.start) * max(0, xs.stop - xs.start) + max(0, yd.stop - yd.start) * max(0, xd.stop - xd.start)
+        print(f"separation {sep:.3f} source pixels, padding margin {margin}, roi_src {r.roi_src} roi_dst {r.roi_dst}")
+        R.oracle(not (sep > margin + 0.05) or area == 0, key, case, "separated by more than the padding margin but regions not empty")
     elif case.get("fn") == "compute_reproject_roi":
         O, src, dst, kw = rebuild(case)
         try:
@@ -1519,7 +1739,7 @@ def replay(R: Run, rec) -> int:
                 finally:
                     O.native_pix_transform = orig
             else:
-                r = O.compute_reproject_roi(src, dst, **kw)
+                r = call_plan(O, case.get("positional", False), src, dst, **kw)
         except Exception as e:  # pylint: disable=broad-except
             print("raises", type(e).__name__, e)
             return 1
